@@ -15,13 +15,16 @@ MAXR = 3          # cross-checked against Gen/SMConst.v by the check
 CACHEABLE = {200, 203, 300, 301, 302, 404, 410}
 
 
-def vcl_action(a):
+ERROR_CODES = [601, 601, 150, 199, 200, 404, 503, 600, 699, 700, 999]   # also < 200 and >= 600/700
+
+
+def vcl_action(a, code=601):
     if a == "none":
         return ""
     if a == "bare":
         return "return;"
     if a == "errstmt":
-        return "error 601;"
+        return "error %d;" % code
     if a == "restartstmt":
         return "restart;"
     if a == "fail":
@@ -62,9 +65,9 @@ class Namer:
         return "c06_%s%d" % (prefix, self.n)
 
 
-def vcl_action_at(a, pos, namer):
+def vcl_action_at(a, pos, namer, code=601):
     """statement text that issues action `a` from position `pos`; helper subroutines go to namer.subs"""
-    A = vcl_action(a)
+    A = vcl_action(a, code)
     if pos == "top" or namer is None:
         return A
     if pos == "block":
@@ -157,7 +160,8 @@ def variant_body(v, sc, namer=None):
             return "set beresp.cacheable = false;"
         parts.append(by_restarts(v["fetch"], f))
     pos = v.get("pos", {}).get(sc, ["top"] * 4)
-    parts.append(by_restarts(list(zip(v["acts"][sc], pos)), lambda ap: vcl_action_at(ap[0], ap[1], namer)))
+    codes = v.get("errcode", {}).get(sc, [601] * 4)
+    parts.append(by_restarts(list(zip(v["acts"][sc], pos, codes)), lambda ap: vcl_action_at(ap[0], ap[1], namer, ap[2])))
     return " ".join(p for p in parts if p)
 
 
@@ -292,8 +296,9 @@ def model_request(variants, reqs):
                 elif o[0] == "check":
                     os_.append("(check %d %d %d %d %d %d)" % (intern("rc:" + o[1]), intern("pb:" + o[1]), o[2], o[3], o[4], o[5] * 1000))
             ops.append("(" + " ".join(os_) + ")")
-        parts.append("(req %d 1 (orc %s) (hash %s) (bresp %s) (hit %s) (ops %s))" % (
-            now, orc, " ".join(map(str, hashes)), " ".join(bresp), " ".join(hit), " ".join(ops)))
+        err = " ".join("(" + " ".join(str(c) for c in v.get("errcode", {}).get(sc, [601] * 4)) + ")" for sc in SCOPES)
+        parts.append("(req %d 1 (orc %s) (hash %s) (bresp %s) (hit %s) (ops %s) (err %s))" % (
+            now, orc, " ".join(map(str, hashes)), " ".join(bresp), " ".join(hit), " ".join(ops), err))
         ir = {"url": url, "adv_ms": rq.get("adv_ms", 0), "hdr": {}, "start_ms": rq.get("start_ms", 0)}
         if len(variants) > 1:
             ir["hdr"]["V"] = str(rq.get("v", 0))
@@ -323,8 +328,10 @@ def canon_impl(reply, ids):
         obs = ",".join(m[4:] for m in (x["logs"] or []) if m.startswith("obs:"))
         xc = x["xcache"] if x["xcache"] is not None else "-"
         xh = x["xhits"] if x.get("xhits") is not None else "-"
-        out.append("R flows=%s restarts=%d cached=%d xcache=%s xhits=%s error=%d obs=%s" % (
-            flows, x["restarts"], 1 if x["cached"] else 0, xc, xh, 1 if x["error"] else 0, obs))
+        # the status the client sees, compared when the response is vcl_error's synthetic object
+        stt = str(x["status"]) if x.get("errobj") else "-"
+        out.append("R flows=%s restarts=%d cached=%d xcache=%s xhits=%s status=%s error=%d obs=%s" % (
+            flows, x["restarts"], 1 if x["cached"] else 0, xc, xh, stt, 1 if x["error"] else 0, obs))
     cache = sorted((ids.get(it["hash"], -1), 1 if it["fresh"] else 0, it["hits"]) for it in (d["cache"] or []))
     rc = sorted((ids.get("rc:" + k, -1), v) for k, v in (d["rc"].get("c06rc") or {}).items())
     pb = sorted(ids.get("pb:" + k, -1) for k in (d["pb"].get("c06pb") or []))
